@@ -15,6 +15,8 @@
 
 #include <algorithm>
 #include <memory>
+#include <sys/wait.h>
+#include <unistd.h>
 
 using namespace verif;
 
@@ -71,6 +73,8 @@ static void pool_get(int tid, bool safe) {
   PW.held[tid].push_back(idx);
   (*PW.pool)[idx] = tid;
   e1::note_progress();
+  // the owner now uses the slot: other threads may run while it is held
+  harness_point();
 }
 static void pool_free(int tid) {
   if (PW.held[tid].empty())
@@ -107,18 +111,32 @@ static void pool_final() {
 }
 
 // op strings per thread: g = get, s = get_safe, f = free (last taken)
-static Scenario pool_scenario(size_t size, const std::vector< std::string > &progs) {
+static Scenario pool_scenario(size_t size, const std::vector< std::string > &progs, const std::string &init = "") {
   Scenario s;
   std::string nm = fmt("pool%zu", size);
+  if (!init.empty())
+    nm += "/" + init;
   for (auto &p : progs)
     nm += ":" + p;
   s.name = nm;
   s.nthreads = (int)progs.size();
-  s.setup = [size, progs]() {
+  s.setup = [size, progs, init]() {
     PW.pool.reset(new ThreadSafeVector< int >(size, "c08"));
     PW.size = size;
     PW.owner.assign(size, -1);
     PW.held.assign(progs.size(), {});
+    // sequential history that sets up the initial state (slots held by thread 0,
+    // cursor position); 'r' releases the OLDEST slot held
+    for (char c : init) {
+      if (c == 'g')
+        pool_get(0, false);
+      else if (c == 'f')
+        pool_free(0);
+      else if (c == 'r' && !PW.held[0].empty()) {
+        std::rotate(PW.held[0].begin(), PW.held[0].begin() + 1, PW.held[0].end());
+        pool_free(0);
+      }
+    }
   };
   s.thread = [progs](int tid) {
     for (char c : progs[tid]) {
@@ -181,6 +199,9 @@ static void queue_received(int tid, size_t t) {
   }
   QW.holding[tid].push_back(t);
   e1::note_progress();
+  // the receiver now executes the task: other threads may run meanwhile
+  if (cmi_verif::number_of_threads() > 0 && e1::current_thread() >= 0)
+    harness_point();
 }
 static void queue_release(int tid) {
   if (QW.holding[tid].empty())
@@ -196,7 +217,7 @@ static void queue_release(int tid) {
 // programs: 'a'<digit> add task, 'g' get, 't' try_get, 'u' unlock the last received
 static Scenario queue_scenario(const std::string &label, const std::vector< std::vector< int > > &task_locks,
                                int nlocks, const std::vector< size_t > &initially_queued,
-                               const std::vector< std::string > &progs) {
+                               const std::vector< std::string > &progs, int initially_held = -1) {
   Scenario s;
   std::string nm = "queue-" + label;
   for (auto &p : progs)
@@ -224,6 +245,12 @@ static Scenario queue_scenario(const std::string &label, const std::vector< std:
     for (size_t t : initially_queued) {
       QW.queue->add_task(t);
       QW.queued[t]++;
+    }
+    if (initially_held >= 0) {
+      // thread 0 is executing this task: it owns the task's resources
+      QW.queued[initially_held]++;
+      (*QW.tasks)[initially_held].lock_dependency();
+      queue_received(0, (size_t)initially_held);
     }
   };
   s.thread = [progs](int tid) {
@@ -560,6 +587,110 @@ int main(int argc, char **argv) {
   }
   add(memory_scenario(2), false, thorough ? 4 : 3);
 
+  // ---- systematic families: every initial state reachable by a short sequential
+  // history x every pair of short concurrent programs
+  {
+    // pools: initial histories over {g,f,r} (r = release the oldest slot held)
+    std::vector< std::string > inits = {""};
+    const size_t maxinit = thorough ? 4 : 3;
+    for (size_t len = 1; len <= maxinit; ++len) {
+      const size_t first = inits.size();
+      (void)first;
+      std::vector< std::string > next;
+      for (const std::string &w : inits)
+        if (w.size() == len - 1)
+          for (char c : {'g', 'f', 'r'}) {
+            int held = 0;
+            for (char x : w)
+              held += x == 'g' ? 1 : -1;
+            if (c != 'g' && held == 0)
+              continue;
+            next.push_back(w + c);
+          }
+      inits.insert(inits.end(), next.begin(), next.end());
+    }
+    const std::vector< std::string > p0 = {"g", "s", "f", "gf", "sf"}, p1 = {"g", "s", "gf", "sf"};
+    for (size_t size = 1; size <= 3; ++size)
+      for (const std::string &w : inits) {
+        int held = 0, maxheld = 0;
+        for (char x : w) {
+          held += x == 'g' ? 1 : -1;
+          maxheld = std::max(maxheld, held);
+        }
+        if (maxheld > (int)size)
+          continue;
+        for (const std::string &a : p0)
+          for (const std::string &b : p1) {
+            if (a[0] == 'f' && held == 0)
+              continue;
+            // a blocking get must always be satisfiable: never more demand than slots
+            const int demand = held + (a[0] != 'f') + 1 - (a[0] == 'f');
+            const bool blocking = a[0] == 'g' || b[0] == 'g';
+            if (blocking && demand > (int)size)
+              continue;
+            // a spinning safe-get needs its partner to free eventually
+            if (demand > (int)size && !(a.size() == 2 || a[0] == 'f') )
+              continue;
+            if (demand > (int)size && b.size() != 2)
+              continue;
+            if (!thorough && w.size() == 3 && a.size() + b.size() > 3 && a[0] != 's' && b[0] != 's')
+              continue;
+            add(pool_scenario(size, {a, b}, w), true, 0);
+          }
+      }
+    // queues: tasks 0 (no locks), 1 (lock 0), 2 (locks 0,1), 3 (lock 1), 4 (lock 1), 5 (lock 0)
+    const std::vector< std::vector< int > > tl6 = {{}, {0}, {0, 1}, {1}, {1}, {0}};
+    std::vector< std::vector< size_t > > queues = {{}};
+    const size_t maxq = thorough ? 3 : 2;
+    for (size_t len = 1; len <= maxq; ++len) {
+      std::vector< std::vector< size_t > > next;
+      for (auto &q : queues)
+        if (q.size() == len - 1)
+          for (size_t t = 0; t < 6; ++t)
+            if (std::find(q.begin(), q.end(), t) == q.end()) {
+              auto n = q;
+              n.push_back(t);
+              next.push_back(n);
+            }
+      queues.insert(queues.end(), next.begin(), next.end());
+    }
+    for (auto &q : queues)
+      for (int held = -1; held < 6; ++held) {
+        if (held >= 0 && (std::find(q.begin(), q.end(), (size_t)held) != q.end() || tl6[held].empty()))
+          continue;
+        if (q.empty())
+          continue;
+        std::string label = "sys";
+        for (size_t t : q)
+          label += fmt("%zu", t);
+        label += held >= 0 ? fmt("/hold%d", held) : std::string("/free");
+        std::vector< std::string > a0 = held >= 0 ? std::vector< std::string >{"u", "tu"} : std::vector< std::string >{"gu", "tu"};
+        for (const std::string &a : a0)
+          for (const std::string &b : {std::string("tu"), std::string("gu")}) {
+            if (!thorough && b == "gu" && q.size() > 1 && held < 0)
+              continue;
+            add(queue_scenario(label, tl6, 2, q, {a, b}, held), true, 0);
+          }
+      }
+  }
+
+  if (!A.get("list").empty()) {
+    for (auto &r : runs)
+      printf("%s\n", r.sc.name.c_str());
+    return 0;
+  }
+  if (!A.get("only").empty()) {
+    std::vector< Run > keep;
+    for (auto &r : runs)
+      if (r.sc.name == A.get("only"))
+        keep.push_back(r);
+    runs = keep;
+    if (A.geti("bounded", -1) >= 0)
+      for (auto &r : runs) {
+        r.unbounded = false;
+        r.bound = (int)A.geti("bounded", 2);
+      }
+  }
   if (!A.replay.empty()) {
     const std::string txt = read_file(A.replay);
     const std::string nm = replay_field(txt, "scenario");
@@ -578,10 +709,34 @@ int main(int argc, char **argv) {
 
   uint64_t total_exec = 0, total_states = 0, total_points = 0;
   std::set< std::string > seen_all;
-  for (size_t ir = 0; ir < runs.size(); ++ir) {
+  // scenarios are independent: W worker processes each explore a share of them
+  // (the parent of an exploration forks one child per execution, which caps a
+  // single explorer at about 2000 executions per second)
+  const int W = A.replay.empty() ? 12 : 1;
+  const std::string tmpd = fast_tmpdir();
+  std::vector< pid_t > workers;
+  for (int w = 0; w < W; ++w) {
+    pid_t pid = W == 1 ? 0 : fork();
+    if (pid != 0) {
+      workers.push_back(pid);
+      continue;
+    }
+    FILE *out = W == 1 ? nullptr : fopen(fmt("%s/c08_worker_%d.txt", tmpd.c_str(), w).c_str(), "w");
+    auto emit = [&](const std::string &line) {
+      if (out) {
+        std::string l = line;
+        for (char &c : l)
+          if (c == '\n')
+            c = ' ';
+        fputs((l + "\n").c_str(), out);
+      }
+    };
+  for (size_t ir = (size_t)w; ir < runs.size(); ir += (size_t)W) {
     const Run &run = runs[ir];
     if (R.out_of_time()) {
-      R.hit_deadline(fmt("%zu of %zu scenarios not started", runs.size() - ir, runs.size()));
+      emit(fmt("C %zu scenarios of worker %d not started (deadline)", (runs.size() - ir + W - 1) / W, w));
+      if (W == 1)
+        R.hit_deadline("scenarios not started");
       break;
     }
     const Scenario &sc = run.sc;
@@ -622,26 +777,33 @@ int main(int argc, char **argv) {
     opt.unbounded = run.unbounded;
     opt.use_hashing = run.unbounded;
     opt.max_bound = run.bound;
-    opt.jobs = 16;
+    opt.jobs = W == 1 ? 16 : 2;
     opt.exec_timeout = 30.;
     const double remaining = A.deadline - R.elapsed();
-    opt.deadline = std::max(5., std::min(remaining * 0.5, remaining / (double)(runs.size() - ir) * 6.));
+    opt.deadline = std::max(3., std::min(remaining * 0.5, remaining / (double)((runs.size() - ir + W - 1) / W) * 6.));
     e1::ExploreStats st = e1::explore(body, opt);
     total_exec += st.executions;
     total_states += st.distinct_states;
     total_points += st.choice_points;
+    emit(fmt("E %" PRIu64 " %" PRIu64 " %" PRIu64 " %d", st.executions, st.distinct_states, st.choice_points, st.complete ? 1 : 0));
     for (auto &s : st.seen)
       seen_all.insert(s);
     R.evaluations += st.executions;
     R.nontrivial += st.executions > 1 ? st.executions - 1 : 0;
     if (!st.complete)
+    {
       R.cap(fmt("%s: deadline cut the search (%" PRIu64 " executions done)", sc.name.c_str(), st.executions));
-    R.set_json("run:" + sc.name,
-               fmt("{\"threads\": %d, \"mode\": \"%s\", \"executions\": %" PRIu64 ", \"distinct_states\": %" PRIu64
+      emit(fmt("C %s: deadline cut the search (%" PRIu64 " executions done)", sc.name.c_str(), st.executions));
+    }
+    if (ir % 97 == 0 || st.failure_count) {
+      const std::string js = fmt("{\"threads\": %d, \"mode\": \"%s\", \"executions\": %" PRIu64 ", \"distinct_states\": %" PRIu64
                    ", \"pruned_at_visited_state\": %" PRIu64 ", \"max_choice_points\": %" PRIu64 ", \"failing\": %" PRIu64 "}",
                    sc.nthreads, run.unbounded ? "all interleavings (state hashing)" : fmt("deviation bound %d", run.bound).c_str(),
-                   st.executions, st.distinct_states, st.pruned_by_hash, st.max_points, st.failure_count));
-    if (ir < 4 && !st.sample_schedules.empty())
+                   st.executions, st.distinct_states, st.pruned_by_hash, st.max_points, st.failure_count);
+      R.set_json("run:" + sc.name, js);
+      emit("J run:" + sc.name + "\t" + js);
+    }
+    if (ir < 4 && !st.sample_schedules.empty() && W == 1)
       R.sample(fmt("{\"scenario\": \"%s\", \"deviations(pos:choice;len)\": \"%s\"}", sc.name.c_str(), st.sample_schedules.back().c_str()));
     for (const e1::ExecResult &f : st.failures) {
       std::string key, detail;
@@ -653,12 +815,66 @@ int main(int argc, char **argv) {
         key = std::string("C08:") + e1::verdict_name(f.verdict);
         detail = f.outcome;
       }
-      R.violation(key + ":" + sc.name.substr(0, sc.name.find(':')),
-                  fmt("%s [scenario %s, schedule %s, verdict %s]", detail.c_str(), sc.name.c_str(),
-                      e1::prefix_to_string(f.prefix).c_str(), e1::verdict_name(f.verdict)),
-                  fmt("{\"scenario\": \"%s\", \"schedule\": \"%s\"}", sc.name.c_str(), e1::prefix_to_string(f.prefix).c_str()));
+      const std::string fam = sc.name.substr(0, sc.name.find_first_of(":/"));
+      const std::string vdetail = fmt("%s [scenario %s, schedule %s, verdict %s]", detail.c_str(), sc.name.c_str(),
+                                      e1::prefix_to_string(f.prefix).c_str(), e1::verdict_name(f.verdict));
+      const std::string vreplay = fmt("{\"scenario\": \"%s\", \"schedule\": \"%s\"}", sc.name.c_str(), e1::prefix_to_string(f.prefix).c_str());
+      R.violation(key + ":" + fam, vdetail, vreplay);
+      emit("V " + key + ":" + fam + "\t" + vdetail + "\t" + vreplay);
     }
   }
+    if (W > 1) {
+      if (out)
+        fclose(out);
+      _exit(0);
+    }
+  }
+  if (W > 1) {
+    for (pid_t pid : workers) {
+      int status = 0;
+      waitpid(pid, &status, 0);
+      if (!WIFEXITED(status) || WEXITSTATUS(status) != 0)
+        R.violation("C08:worker-died", fmt("exploration worker ended with status %d", status));
+    }
+    for (int w = 0; w < W; ++w) {
+      const std::string txt = read_file(fmt("%s/c08_worker_%d.txt", tmpd.c_str(), w));
+      size_t pos = 0;
+      while (pos < txt.size()) {
+        size_t nl = txt.find('\n', pos);
+        if (nl == std::string::npos)
+          nl = txt.size();
+        const std::string line = txt.substr(pos, nl - pos);
+        pos = nl + 1;
+        if (line.size() < 2)
+          continue;
+        if (line[0] == 'E') {
+          unsigned long long a, b, c;
+          int complete;
+          if (sscanf(line.c_str(), "E %llu %llu %llu %d", &a, &b, &c, &complete) == 4) {
+            total_exec += a;
+            total_states += b;
+            total_points += c;
+            R.evaluations += a;
+            R.nontrivial += a > 1 ? a - 1 : 0;
+          }
+        } else if (line[0] == 'C') {
+          R.cap(line.substr(2));
+        } else if (line[0] == 'J') {
+          size_t t1 = line.find('\t');
+          if (t1 != std::string::npos)
+            R.set_json(line.substr(2, t1 - 2), line.substr(t1 + 1));
+        } else if (line[0] == 'V') {
+          size_t t1 = line.find('\t'), t2 = line.find('\t', t1 + 1);
+          if (t1 != std::string::npos && t2 != std::string::npos)
+            R.violation(line.substr(2, t1 - 2), line.substr(t1 + 1, t2 - t1 - 1), line.substr(t2 + 1));
+        }
+      }
+    }
+  }
+  remove_fast_tmpdir(tmpd);
+  for (size_t k = 0; k < runs.size() && k < 6; ++k)
+    R.sample(fmt("{\"scenario\": \"%s\", \"threads\": %d, \"mode\": \"%s\"}", runs[(k * 131) % runs.size()].sc.name.c_str(),
+                 runs[(k * 131) % runs.size()].sc.nthreads, runs[(k * 131) % runs.size()].unbounded ? "all interleavings" : "deviation bounded"));
   R.set("states", (double)std::max< uint64_t >(total_states, 1));
   R.set("transitions", (double)total_points);
   R.set("traces_validated_against_impl", (double)total_exec);
